@@ -57,7 +57,7 @@ struct NonCopy { NonCopy(const NonCopy &); ~NonCopy(); int x; };
 union NCU { NonCopy n; int i; NCU(); ~NCU(); };
 '''
 
-REGEXES = ["Foo", "foo_t", "Bar|Color", "fn_.*", "g_.*", ".*", "my_int.*", "Base", "Derived", "outer::inner::.*", "Tpl.*", "td_enum", "WithAnon", "NCU", "Nomatch"]
+REGEXES = ["Foo", "foo_t", "Bar|Color", "fn_.*", "g_.*", ".*", "my_int.*", "Base", "Derived", "outer::inner::.*", "Tpl.*", "td_enum", "WithAnon", "NCU", "Nomatch", "Foo|x=y"]
 TEXTS = ["plain", "with space", "a=b", "quote'\"s", "unié中", "x::y", "#[allow(dead_code)]", "-leading-dash", "--two", "tab\there"]
 ENUMS = {
     "EnumVariation": ["consts", "moduleconsts", "bitfield", "newtype", "newtype_global", "rust", "rust_non_exhaustive"],
@@ -96,7 +96,8 @@ def samples_for(name, kinds, d):
     if len(ks) == 1 and ks[0].startswith("enum:"):
         return [[v] for v in ENUMS[ks[0][5:]]]
     if name == "override_abi":
-        return [[a, r] for a in ENUMS["Abi"] for r in ("fn_plain", "fn_.*")][:20]
+        # (patterns containing `=`: the flag is spelled REGEX=ABI and must be split at the LAST `=`)
+        return [[a, r] for a in ENUMS["Abi"] for r in ("fn_plain", "fn_.*")][:20] + [["stdcall", "fn_plain|x=y"], ["C-unwind", "a=b|fn_.*"], ["win64", "=|fn_plain"]]
     if name == "module_raw_line":
         return [["root", "pub type X = u8;"], ["root::outer", "// c"]]
     if name == "field_attribute":
